@@ -155,6 +155,27 @@ def run(ctx, prog):
         return None
     A.require('serialize/pipeline-roaring-zlib-base64url', paths, r_ser, replay=R('[roundtrip]'))
 
+    # decompression is the streaming decoder run to the end (no fixed-size output buffer, no ignored status)
+    f = prog.one(IMPL + r'decompress_zlib$')
+    paths, ex = A.paths(f)
+
+    def r_dz(p):
+        if p.kind != 'return':
+            return 'panic ' + p.msg
+        if not p.is_ok():
+            return None
+        dec = [c for c in p.calls if re.search(r'ZlibDecoder<.*>::new$|ZlibDecoder::new$', c.name)]
+        wr = [c for c in p.calls if re.search(r'Write>::write_all$', c.name) and p.took(c, 'Ok') and mentions(c.args, r'^input$')]
+        fin = [c for c in p.calls if re.search(r'ZlibDecoder<.*>::finish$|ZlibDecoder::finish$', c.name) and p.took(c, 'Ok')]
+        if not dec or not wr or not fin:
+            return 'not the streaming decoder fed with the whole input and finished successfully'
+        other = [c for c in p.calls if re.search(r'Decompress|with_capacity|decompress_vec|::truncate$|::take$', c.name)]
+        if other:
+            return 'decompression goes through %s' % other[0].name.split('::')[-1]
+        t = strip(p.term(p.payload()))
+        return None if t == ('field', fin[0].ret, 0, 'Ok') else 'returned data is not what the decoder produced'
+    A.require('decompress_zlib/streaming-decoder-run-to-the-end', paths, r_dz, replay=R('[roundtrip]'))
+
     # the detector's premise: streams are written with the default compression level (zlib header 0x78 0x9C)
     f = prog.one(IMPL + r'compress_zlib$')
     paths, ex = A.paths(f)
@@ -301,6 +322,8 @@ def run(ctx, prog):
         if p.is_ok():
             if not rb or not mentions(rb[0].args[0], r'^issuer$') or not (apps(rb[0].args[1], r'RevocationBitmapStatus::id$') and mentions(rb[0].args[1], r'^status$')):
                 return 'bitmap not resolved in the issuer document by the status id'
+            if apps(rb[0].args[1], r'::fragment$|::path$|::query$|::url$'):
+                return 'bitmap service looked up by a part of the status id, not by the whole id'
             if not ix or not ir or not is_sub(ir[0].args[0], ('field', rb[0].ret, 0, 'Ok')):
                 return 'membership of the status index not tested on the resolved bitmap'
             want = ex.sym_int(('field', ix[0].ret, 0, 'Ok'), 32).e
